@@ -259,6 +259,35 @@ def rule_N2(ctx):
 
 
 # ------------------------------------------------------------------------ N3
+def _prop_canon(ctx, cls, text):
+    """`self.X` where X is a read-only property of cls (or a base) all of whose paths return `self.Y` -> `self.Y` (followed up to 3 steps)"""
+    for _ in range(3):
+        if cls is None or not text.startswith("self.") or not text[5:].isidentifier():
+            return text
+        attr = text[5:]
+        prop = None
+        for c in ctx.prog.mro(cls):
+            hits = [st for st in c.body if isinstance(st, ast.FunctionDef) and st.name == attr]
+            if hits:
+                if len(hits) == 1 and any(isinstance(d, ast.Name) and d.id == "property" for d in hits[0].decorator_list):
+                    prop = hits[0]
+                break
+            if any(isinstance(st, (ast.Assign, ast.AnnAssign)) and any(isinstance(t, ast.Name) and t.id == attr for t in (st.targets if isinstance(st, ast.Assign) else [st.target]))
+                   for st in c.body):
+                break
+        if prop is None:
+            return text
+        rets = {p_.ret.key() if p_.ret is not None else None for p_ in run_paths(ctx, prop, rule="N3") if p_.end == "return"}
+        ends = {p_.end for p_ in run_paths(ctx, prop, rule="N3")}
+        if len(rets) != 1 or ends != {"return"}:
+            return text
+        nxt = rets.pop()
+        if nxt is None or not nxt.startswith("self.") or not nxt[5:].isidentifier():
+            return text
+        text = nxt
+    return text
+
+
 def rule_N3(ctx):
     sites = [("smpl_extract/akai/sample.py", "AkaiSample.to_generalized"), ("smpl_extract/roland/s7xx/sample_file.py", "SampleFile.to_generalized"),
              ("smpl_extract/cdda/image.py", "AudioTrack.to_generalized")]
@@ -268,8 +297,11 @@ def rule_N3(ctx):
         ok = len(cs) == 1
         kw = {k.arg: norm(k.value) for k in cs[0].keywords} if ok else {}
         want = {"_export_name": "self.export_name", "_safe_name": "self.safe_name", "_path": "self.path", "_parent": "self.parent", "name": "self.name"}
+        cls_ = enclosing_class(fn)
         for k, v in want.items():
-            ctx.ob("N3", cs[0] if cs else fn, f"{q}: generalized sample receives {k} = {v}", kw.get(k) == v, f"is {kw.get(k)}", inst=f"{q}:{k}")
+            # `self.name` and the attribute a plain property `name` returns are the same value
+            good = kw.get(k) == v or (kw.get(k) is not None and _prop_canon(ctx, cls_, kw.get(k)) == _prop_canon(ctx, cls_, v))
+            ctx.ob("N3", cs[0] if cs else fn, f"{q}: generalized sample receives {k} = {v}", good, f"is {kw.get(k)}", inst=f"{q}:{k}")
     # the name an AKAI file goes by (listing, pairing, output file) is the one of its directory entry, not the copy inside the file
     for path, q in (("smpl_extract/akai/sample.py", "AkaiSample.name"), ("smpl_extract/akai/program.py", "Program.name")):
         fnm = ctx.fn(path, q, "N3")
